@@ -52,7 +52,7 @@ def lattice_input(rng: random.Random):
             labs = labs[:m] + [v + d for v in labs[m:]]
         labs = sorted(set(labs))
         off = STEP * rng.randint(0, 5)
-        tail = STEP * rng.randint(0, 4) + 1
+        tail = rng.choice([0, 1, STEP * rng.randint(1, 4), STEP * rng.randint(1, 4) + 1])   # 0: the mirror image starts at 0
         fwd = [v + off for v in labs]
         total = fwd[-1] + tail
         mir = sorted(total - v for v in fwd)
